@@ -855,9 +855,10 @@ func (i StaticInspector) indString(x any) (string, bool) {
 		return x.(string), true
 	case *string:
 		return *x.(*string), true
-	}
-	if b, ok := i.indBytes(x); ok {
-		return byteconv.B2S(b), true
+	case []byte:
+		return byteconv.B2S(x.([]byte)), true
+	case *[]byte:
+		return byteconv.B2S(*x.(*[]byte)), true
 	}
 	return "", false
 }
@@ -868,9 +869,10 @@ func (i StaticInspector) indBytes(x any) ([]byte, bool) {
 		return x.([]byte), true
 	case *[]byte:
 		return *x.(*[]byte), true
-	}
-	if s, ok := i.indString(x); ok {
-		return byteconv.S2B(s), true
+	case string:
+		return byteconv.S2B(x.(string)), true
+	case *string:
+		return byteconv.S2B(*x.(*string)), true
 	}
 	return nil, false
 }
